@@ -34,6 +34,25 @@ CLAIMS = {
         text='relocate_lo and relocate_hi are reduced to closed forms over the bits of an arbitrary integer v (exact linear form / signed residue); lo == v (mod 2^12), hi == (v>>12)+v[11] (mod 2^20) and (hi<<12)+lo == v (mod 2^32) '
              'are then identities between coefficients, hence hold for all 2^32 values and every negative or >2^31 spelling; ranges are compared with the accepted sets derived for lui/auipc and all I/S-type consumers; Hi/Lo.eval and parse_immediate are followed by def-use.',
         note='Trusted: CPython ast; the linear-form arithmetic of bbverif/relocdom.py; accepted sets from bbverif/bitdom.py. The pairing of the two halves emitted by the pseudo-instruction pass is decided under C03/C05.'),
+    'C03': dict(
+        category='other', design='DESIGN.md §4 "The layout invariant", C03',
+        technique='inductive layout invariant discharged per path by symbolic path enumeration of each pass (ast); size algebra; def-use rules R-lo-width / R-auipc; encoder summaries for pc-relative immediates',
+        text='labels[l] == sum of size() of the items before l is established by resolve_labels and preserved by every later pass on every path of one loop iteration (bytes in = bytes out + shift of exactly the labels after the item start), '
+             'on both arms of -c; final immediates are evaluated from the item\'s own final offset with %offset = label - position; %lo consumers are guarded or paired with %hi; the auipc/jalr pair is evaluated relative to the auipc at every site. '
+             'The argument is per path, so it covers every program and layout at once; it is not a machine-checked proof, hence "other".',
+        note='Not decided: whether a near/far, li or compression decision taken on pessimistic label values is still valid after labels moved (value-dependent). Trusted: CPython ast, bbverif pathwalk/layout/bitdom, oracle tables.'),
+    'C08': dict(
+        category='other', design='DESIGN.md §4 C08',
+        technique='pass-order effect analysis (MUT/BAKE/PEEK) over the pipeline read from assemble; normal forms of Offset/Position evaluation (linear forms); kind dataflow for expression-carrying fields',
+        text='Every pass is classified by what it does with label-dependent evaluations; on both arms of compress the only baking pass is ordered after the last label-moving pass and evaluates at the item\'s own final offset against ChainMap(constants, labels); '
+             'early evaluations flow only into comparisons; all expression-carrying fields are the one the baking site reads. Together with the layout invariant this fixes, for all placements, which offsets the encoded values are computed from.',
+        note='Not decided: staleness of early (PEEK) decisions. Trusted: CPython ast, bbverif pathwalk.'),
+    'C09': dict(
+        category='other', design='DESIGN.md §4 C09',
+        technique='per-path byte accounting of every pass (symbolic path enumeration + size algebra), append-only/in-order rule, class-flow exhaustiveness, linear-modular normal form of Align.resolution_size',
+        text='For every path through one iteration of every pass: bytes contributed by the consumed item == bytes of the appended items + label shift, appended in iteration order only; class flow shows each item kind has exactly one handler and only Blob reaches the concatenation; '
+             'resolution_size normalises over p = qN + r to 0 / N - r and is emitted as that many zero bytes at the item-start offset. This decides the concatenation/align statement for all item sequences and all N at all residues.',
+        note='Trusted: CPython ast, struct standard sizes (oracle), bbverif pathwalk/layout/alignform. An align expression outside the linear-modular fragment yields exit 2, not a violation.'),
 }
 
 NOT_YET = 'check not built yet (framework under construction)'
